@@ -43,6 +43,7 @@ def run_and_validate(name, progs, dbset, target="sqlite", shard=4000, par=6):
             raise ToolError("pv run failed: " + p.stderr.read()[-2000:])
     rejects, counts, nevents = [], [0, 0, 0], 0
     side = {}
+    skipped_ids = set()
     # validate shards with a few TLC processes in parallel
     from concurrent.futures import ThreadPoolExecutor
     def validate(i):
@@ -65,8 +66,10 @@ def run_and_validate(name, progs, dbset, target="sqlite", shard=4000, par=6):
             rejects.append((r[1], r[2], {"frame": json.loads(r[4]), "src": json.loads(r[5])}))
         for s in read_ndjson(os.path.join(d, f"side{i}.ndjson")):
             side[s["id"]] = s
+        for r in tuples(out, "SKIPPED"):
+            skipped_ids.add(r[1])
     return {"rejects": rejects, "accepted": counts[0], "rejected": counts[1], "skipped": counts[2],
-            "events": nevents, "side": side}
+            "events": nevents, "side": side, "skipped_ids": skipped_ids}
 
 def selftest(dbset):
     """Demonstrate the binding: a recorded execution with one corrupted field (a value, the row
